@@ -2,6 +2,7 @@ package main
 
 import (
 	"bytes"
+	"crypto/md5"
 	"fmt"
 	"os"
 	"strings"
@@ -26,6 +27,7 @@ type RunCfg struct {
 	FileBacked  bool
 	CmpCB       bool // install KeyCompareForCollection so re-opened stores keep their comparators
 	CBSet       int  // callbacks.go bit set
+	Digests     bool // record length+MD5 of the file after every step (byte-exact comparison with DStore)
 	NoHeapCheck bool
 	DumpEvery   bool // compare the full contents of every handle after every step
 	ReopenDump  bool // after every step following a flush, open a copy of the file image and compare with the last flushed reference (C02)
@@ -83,6 +85,10 @@ func RunOps(cfg RunCfg, ops []Op) (*World, []string, *Mismatch) {
 		}
 		got := w.Do(op)
 		obs = append(obs, got)
+		if w.File != nil && cfg.Digests {
+			b := w.File.Bytes()
+			w.Digests = append(w.Digests, fmt.Sprintf("%d %x", len(b), md5.Sum(b)))
+		}
 		if w.File != nil && !w.Hang {
 			evs := w.File.LogFrom(l0)
 			w.LastEvents = evs
@@ -288,6 +294,30 @@ func HistoryLoop(rep *Report, rng *Rng, n int, gen func(r *Rng, i int) (RunCfg, 
 			}
 			rep.Sample(map[string]interface{}{"config": desc, "ops_head": opsString(ops[:k]), "observations_head": obs[:min(len(obs), k)], "n_ops": len(ops)})
 		}
+		if m == nil && dmodelOn && cfg.FileBacked && cfg.Digests {
+			if dm := DModelMismatch(ops, obs, w.Digests); dm != nil {
+				small := Shrink(ops, func(c []Op) bool {
+					w2, o2, m2 := RunOps(cfg, c)
+					return m2 == nil && DModelMismatch(c, o2, w2.Digests) != nil
+				})
+				w2, o2, m2 := RunOps(cfg, small)
+				if m2 == nil {
+					if d3 := DModelMismatch(small, o2, w2.Digests); d3 != nil {
+						dm = d3
+					} else {
+						small = ops
+					}
+				} else {
+					small = ops
+				}
+				rep.Violation("", true, map[string]interface{}{"config": desc, "ops": opsString(small), "mismatch": dm,
+					"broken": "byte-exact correspondence between the implementation's file and the Coq model DStore (flush_bytes / decode_store / revert_bytes); the theorems of C02, C03, C08, C14 are about that model"})
+				if len(rep.Violations) >= 3 {
+					return
+				}
+			}
+			dmodelSteps += len(ops)
+		}
 		if m == nil && modelOn {
 			mm, n := ModelMismatch(cfg.FileBacked, ops, obs)
 			modelSteps += n
@@ -354,6 +384,8 @@ func HistoryLoop(rep *Report, rng *Rng, n int, gen func(r *Rng, i int) (RunCfg, 
 	}
 }
 
+var dmodelOn bool
+var dmodelSteps int
 var modelOn bool
 var modelSteps int
 
